@@ -4,9 +4,9 @@ package stage
 
 import (
 	"bytes"
-	"os"
 	"encoding/json"
 	"fmt"
+	"os"
 	"sort"
 	"testing"
 	"testing/synctest"
@@ -41,7 +41,7 @@ type c09Model struct {
 	// the acknowledged intervals that must still be on record (reset when a part of another
 	// version was announced but failed: the old record may or may not have been discarded)
 	retain [][2]int64
-	done  bool       // cur was completed (record may go away)
+	done   bool // cur was completed (record may go away)
 	// a part of another version of the same size failed after (possibly) writing bytes
 	clobbered bool
 }
